@@ -297,6 +297,7 @@ func c26Digest(kvs types.StateKeyVals) (string, types.StateRoot) {
 }
 
 type c26Runner struct {
+	baseStep   *c26Step // the start head's own block when it is not the genesis (it can be re-sent)
 	initDigest string
 	g        *c26Genesis
 	svc      *FuzzServiceStub
@@ -327,6 +328,7 @@ func c26NewNode(g *c26Genesis, base int) (*c26Runner, types.StateRoot, error) {
 			return nil, root, fmt.Errorf("base block rejected on a fresh node: %s", st.err)
 		}
 		rn.imports = 0
+		rn.baseStep = &st
 	}
 	kvs, err := rn.svc.GetState(rn.head.hash)
 	if err != nil {
@@ -384,6 +386,9 @@ func c26RunA(g *c26Genesis, base int, seq []int) (steps []c26Step, applicable bo
 	}
 	c26Init = c26InitInfo{hash: rn.head.hash, root: rn.head.root, digest: rn.initDigest}
 	var lastRejected, lastAccepted *c26Step
+	// the start head counts as the last accepted block: re-sending the current head must
+	// be possible as the very first event
+	lastAccepted = rn.baseStep
 	for _, ev := range seq {
 		head := rn.head
 		var b types.Block
